@@ -366,6 +366,10 @@ def r5_shared_element_checks(ctx):
     # a missing required element / component is only reported if the node at its position is asked about `None`
     for o in c15._delegation_by_position(ctx):
         yield o
+    # an impossible day, hour or minute is one of the faults of the catalogue: the field atoms of the date / time recognisers
+    from . import c13
+    for o in c13.r3_atoms(ctx):
+        yield o
 
 def r6_shared_walker(ctx):
     """a missing mandatory segment/loop, an exceeded repeat limit and an unexpected segment are found by the walker
